@@ -98,7 +98,9 @@ class TlcResult:
         if mi:
             self.violated_invariant = mi.group(1)
         self.violated_action_prop = re.search(r"Error: Action property (\S+) is violated", out) is not None
-        self.violated_temporal = "Temporal properties were violated" in out
+        self.violated_temporal = "Temporal properties were violated" in out or re.search(r"Temporal property \S+ was violated", out) is not None
+        mt = re.search(r"Temporal property (\S+) was violated", out)
+        self.violated_temporal_name = mt.group(1) if mt else None
         self.postcondition_false = "postcondition" in out.lower() and ("violated" in out.lower() or "false" in out.lower()) and not self.completed
         self.deadlock = "Error: Deadlock reached" in out
         h = None
